@@ -174,6 +174,9 @@ def _region_literals(fn, region):
         if isinstance(node, dict):
             if node.get("k") == "const" and isinstance(node.get("val"), int):
                 out.add(node["val"])
+            if node.get("k") == "const" and isinstance(node.get("indirect"), dict) and str(node.get("ty", "")).startswith("[u8; ") \
+                    and len(node["indirect"].get("hex", "")) <= 32:
+                out.update(bytes.fromhex(node["indirect"]["hex"]))   # a small named byte array counts as its bytes
             for v in node.values():
                 scan(v)
         elif isinstance(node, list):
@@ -189,11 +192,16 @@ def _region_literals(fn, region):
 ALT_PATTERNS = {
     # the number of code-length codes written as the length of the ORDER table instead of the literal 19
     "cl-table": [[P(rel="isnot", calls={"inflate_table"}, names={"Codes", "lens", "ORDER"}, consts={7})]],
+    # the repeat-overflow test with `have` moved to the other side: `copy > nlen + ndist - have` (neutral patch F_F2_r1)
+    "rep16-overflow": [[P(rel="Lt", lo_names={"nlen", "ndist", "have"}, hi_consts={3, 2}), P(rel="in", values={16})]],
+    "rep17-overflow": [[P(rel="Lt", lo_names={"nlen", "ndist", "have"}, hi_consts={3}, not_consts={11, 7, 2}), P(rel="in", values={17})]],
+    "rep18-overflow": [[P(rel="Lt", lo_names={"nlen", "ndist", "have"}, hi_consts={11, 7})]],
 }
 
 MERGED_ALTERNATIVES = {
-    "rep17-overflow": ([P(rel="Lt", lo_names={"nlen", "ndist"}, hi_names={"have"})], {3, 7, 11, 17}),
-    "rep18-overflow": ([P(rel="Lt", lo_names={"nlen", "ndist"}, hi_names={"have"})], {3, 7, 11, 17}),
+    # (the symbol value 17 may be a literal of a comparison or a value of a `match`: only the repeat bases and widths are asked for)
+    "rep17-overflow": ([P(rel="Lt", lo_names={"nlen", "ndist"}, hi_names={"have"})], {3, 7, 11}),
+    "rep18-overflow": ([P(rel="Lt", lo_names={"nlen", "ndist"}, hi_names={"have"})], {3, 7, 11}),
 }
 
 
